@@ -32,6 +32,7 @@ type c17Scenario struct {
 	PreRefuse  int       `json:"pre_refuse"`
 	Welcome    string    `json:"welcome"` // same, other
 	JoinChan   bool      `json:"join_chan"` // tracking: share a channel with other users
+	PlainWelcome bool    `json:"plain_welcome"` // the welcome text does not end in nick!user@host
 	Steps      []c17Step `json:"steps"`
 }
 
@@ -65,6 +66,7 @@ func genC17(t *rapid.T) *c17Scenario {
 		PreRefuse: rapid.SampledFrom([]int{0, 0, 1, 2, 4}).Draw(t, "pre_refuse"),
 		Welcome:   rapid.SampledFrom([]string{"same", "same", "other"}).Draw(t, "welcome"),
 		JoinChan:  rapid.Bool().Draw(t, "join_chan"),
+		PlainWelcome: rapid.Bool().Draw(t, "plain_welcome"),
 	}
 	gen := c17Gen(sc.Generator)
 	// replay the model while generating so that names can be chosen relative to the current nick
@@ -220,7 +222,11 @@ func runC17(sc *c17Scenario) *Violation {
 	if sc.Welcome == "other" {
 		cur = "srvgiven"
 	}
-	conn.SendLine(fmt.Sprintf(":irc.server 001 %s :Welcome to the network %s!ident@client.host", cur, cur))
+	if sc.PlainWelcome {
+		conn.SendLine(fmt.Sprintf(":irc.server 001 %s :Welcome to the Internet Relay Network", cur))
+	} else {
+		conn.SendLine(fmt.Sprintf(":irc.server 001 %s :Welcome to the network %s!ident@client.host", cur, cur))
+	}
 	if _, v := newNickLines(); v != nil {
 		return v
 	}
